@@ -69,13 +69,26 @@ class IgnoreDirectiveParser:
         path_str = str(file_path)
         with suppress(KeyError):
             return self._ignore_cache[path_str]
-        try:
-            check_path = str(file_path.relative_to(self.project_root))
-        except ValueError:
-            check_path = path_str
+        check_path = self._path_in_project(file_path)
         result = any(matches_pattern(check_path, p) for p in self.repo_patterns)
         self._ignore_cache[path_str] = result
         return result
+
+    def _path_in_project(self, file_path: Path) -> str:
+        """Project-relative spelling of a path, however it was given.
+
+        Patterns such as ``src/legacy/`` are written relative to the project root; a target
+        spelled relative to another working directory (``legacy/old.py`` from ``src``) or
+        through ``..`` must be judged by the same project-relative path.
+        """
+        try:
+            return str(file_path.relative_to(self.project_root))
+        except ValueError:
+            pass
+        try:
+            return str(file_path.resolve().relative_to(self.project_root.resolve()))
+        except (ValueError, OSError):
+            return str(file_path)
 
     def has_file_ignore(self, file_path: Path, rule_id: str | None = None) -> bool:
         """Check for file-level ignore directive in first 10 lines."""
